@@ -1,12 +1,16 @@
 import AnnVerif.Model.DriverUtil
-import AnnVerif.Model.Node
+import AnnVerif.Model.Wal
 namespace AnnVerif.NodeDrv
-open AnnVerif AnnVerif.Drv AnnVerif.Node
+open AnnVerif AnnVerif.Drv AnnVerif.Node AnnVerif.Wal
 
 structure DSt where
   cfg : Cfg := Node.repaired
-  n : Node := Node.init Node.repaired 1 ⟨[], none, 0⟩ none false
   addrs : List Bytes := []
+  l : Logged := { n := Node.init Node.repaired 1 ⟨[], none, 0⟩ none false,
+                  snap := Node.init Node.repaired 1 ⟨[], none, 0⟩ none false, log := [] }
+
+def DSt.n (d : DSt) : Node := d.l.n
+def DSt.setN (d : DSt) (n : Node) : DSt := { d with l := { d.l with n := n } }
 
 def showName (b : Name) : String := if b.isEmpty then "-" else String.fromUTF8! (ByteArray.mk b.toArray)
 def parseName (s : String) : Name := if s == "-" then [] else s.toUTF8.toList
@@ -39,25 +43,50 @@ def showMsg : Msg → String
   | .parts _ _ b => s!"B({showName b})"
   | .vote v _ => s!"V({v.type},{v.height},{v.round},{showName (nameOf v.bid)})"
 
-/-- a step that panics leaves the real node in an undefined state: report PANIC only -/
-def finish (d : DSt) (n : Node) (pre : String := "") : DSt × String :=
-  if n.out.any (fun e => match e with | .panic _ => true | _ => false) then
-    ({ d with n := { n with out := [] } }, "PANIC")
-  else ({ d with n := { n with out := [] } }, pre ++ digest n)
+/-- handle one record: WAL first (the log), then the handler; a new height starts a new log -/
+def handle (d : DSt) (r : Rec) : DSt := { d with l := Wal.handle d.l r }
 
-partial def drainAll (n : Node) (acc : List String) (fuel : Nat) : Node × List String :=
-  match fuel, n.queue with
-  | 0, _ => (n, acc)
-  | _, [] => (n, acc)
+def showVoteSet (vs : VoteSet.VoteSet) : String :=
+  if vs.votes.all Option.isNone then "" else
+  let xs := vs.votes.map fun o => match o with | some v => showName (nameOf v.bid) | none => "_"
+  let m := match vs.maj23 with | some b => showName (nameOf b) | none => "none"
+  ",".intercalate xs ++ "/" ++ m
+
+/-- the votes op: every round (ascending, within the window the harness looks at) holding a vote -/
+def showVotes (n : Node) : String :=
+  let rs := (List.range (n.round + 13).toNat).filterMap fun k =>
+    match getRound n (Int.ofNat k) with
+    | none => none
+    | some rv =>
+      let pv := showVoteSet rv.prevotes
+      let pc := showVoteSet rv.precommits
+      if pv.isEmpty ∧ pc.isEmpty then none else some s!"r{k}:pv={pv};pc={pc}"
+  s!"h={n.height} votes " ++ " ".intercalate rs
+
+/-- a step that panics leaves the real node in an undefined state: report PANIC only -/
+def finish (d : DSt) (pre : String := "") : DSt × String :=
+  let n := d.n
+  if n.out.any (fun e => match e with | .panic _ => true | _ => false) then
+    (d.setN { n with out := [] }, "PANIC")
+  else (d.setN { n with out := [] }, pre ++ digest n)
+
+def restartNode (d : DSt) (torn : Bool) : DSt := { d with l := Wal.restart d.l torn }
+
+partial def drainAll (d : DSt) (acc : List String) (fuel : Nat) : DSt × List String :=
+  match fuel, d.n.queue with
+  | 0, _ => (d, acc)
+  | _, [] => (d, acc)
   | f + 1, m :: rest =>
-    let n := handleMsg { n with queue := rest } m ""
-    drainAll n (acc ++ [showMsg m]) f
+    let d := handle (d.setN { d.n with queue := rest }) (.msg m "")
+    drainAll d (acc ++ [showMsg m]) f
 
 def dstep (d : DSt) (line : String) : DSt × String :=
   let ws := words line
   let g (k : String) : String := (kv ws k).getD ""
   match ws with
-  | "cfg" :: _ => ({ d with cfg := ⟨g "verifyOwnParts" != "0"⟩ }, "ok")
+  | "cfg" :: _ =>
+    ({ d with cfg := ⟨g "verifyOwnParts" != "0"⟩,
+              l := { d.l with tornOk := (g "walTornOk" != "0"), keepsProposer := (g "stateKeepsProposer" != "0") } }, "ok")
   | "init" :: _ =>
     let powers := (g "powers").splitOn "," |>.filterMap String.toInt?
     let addrs := (g "addrs").splitOn "," |>.filterMap Hex.decode
@@ -65,34 +94,41 @@ def dstep (d : DSt) (line : String) : DSt × String :=
     let vs := ValSet.newValSet ValSet.repaired vals
     let n0 := Node.init d.cfg 1 vs (g "me").toNat? ((g "skip") == "1")
     let n := if (g "prefix").isEmpty then n0 else { n0 with ownPrefix := (g "prefix").toUTF8.toList }
-    finish { d with addrs := addrs } n
+    finish { d with addrs := addrs, l := { d.l with n := n, snap := n, log := [], tornAt := none } }
   | "mkblock" :: nm :: _ =>
     let bh := (g "h").toInt?.getD d.n.height
     let n := { d.n with validTab := d.n.validTab ++ [(parseName nm, bh, g "valid" != "0")] }
-    ({ d with n := n }, "ok")
+    (d.setN n, "ok")
   | "proposal" :: nm :: _ =>
     match (g "h").toInt?, (g "r").toInt?, (g "pol").toInt?, (g "signer").toNat? with
     | some h, some r, some pol, some sg =>
       let p : Proposal := ⟨h, r, parseName nm, pol, parseName (g "polblock")⟩
-      finish d (handleMsg d.n (.proposal p sg (g "bad" == "1")) "peer")
+      if g "presave" == "1" then ({ d with l := Wal.saveOnly d.l (.msg (.proposal p sg (g "bad" == "1")) "peer") }, "ok") else
+      finish (handle d (.msg (.proposal p sg (g "bad" == "1")) "peer"))
     | _, _, _, _ => (d, "bad-op")
   | "parts" :: nm :: _ =>
     match (g "h").toInt?, (g "r").toInt? with
-    | some h, some r => finish d (handleMsg d.n (.parts h r (parseName nm)) "peer")
+    | some h, some r =>
+      if g "presave" == "1" then ({ d with l := Wal.saveOnly d.l (.msg (.parts h r (parseName nm)) "peer") }, "ok") else
+      finish (handle d (.msg (.parts h r (parseName nm)) "peer"))
     | _, _ => (d, "bad-op")
   | "vote" :: _ =>
     match (g "t").toNat?, (g "h").toInt?, (g "r").toInt?, (g "idx").toInt?, Hex.decode (g "addr") with
     | some t, some h, some r, some idx, some addr =>
       let v : VoteSet.Vote := ⟨idx, addr, h, r, t, bidOf (parseName (g "block")), (g "sig").toNat?.getD 0⟩
-      finish d (handleMsg d.n (.vote v (g "ok" == "1")) (g "peer"))
+      if g "presave" == "1" then ({ d with l := Wal.saveOnly d.l (.msg (.vote v (g "ok" == "1")) (g "peer")) }, "ok") else
+      finish (handle d (.msg (.vote v (g "ok" == "1")) (g "peer")))
     | _, _, _, _, _ => (d, "bad-op")
   | ["timeout", h, r, s] =>
     match h.toInt?, r.toInt? with
-    | some h, some r => finish d (handleTimeout d.n h r (parseStep s))
+    | some h, some r => finish (handle d (.timeout h r (parseStep s)))
     | _, _ => (d, "bad-op")
   | ["drain"] =>
-    let (n, msgs) := drainAll d.n [] 200
-    finish d n (" ".intercalate msgs ++ " || ")
+    let (d, msgs) := drainAll d [] 200
+    finish d (" ".intercalate msgs ++ " || ")
+  | ["votes"] => (d, showVotes d.n)
+  | ["proposer"] => (d, "proposer=" ++ (match proposerAddr d.n with | some a => Hex.encode a | none => "-"))
+  | "restart" :: _ => finish (restartNode d (g "torn" == "1"))
   | _ => (d, "bad-op")
 
 
